@@ -7,7 +7,9 @@ import (
 	"strings"
 	"time"
 
+	"github.com/scrapli/scrapligo/driver/options"
 	"github.com/scrapli/scrapligo/response"
+	"github.com/scrapli/scrapligo/util"
 
 	"verifharness/simdev"
 )
@@ -260,8 +262,22 @@ func c02DrvOne(s *c02Drv, segIdx int) verdict {
 
 	var reply []byte
 
+	// with one byte per read every prefix of the stream is examined by the read loop. In those sessions the reply goes on after
+	// the generated payload with a line that ENDS in "##" and more data than the (shortened) prompt search depth behind it: the
+	// end-of-chunks marker is a line of its own, wherever the examined part of the buffer happens to begin
+	const tailLine = "\n<pad>tail##\n"
+
+	tail := ""
+
+	var extra []util.Option
+
+	if sg.name == "one" && s.Version == "1.1" {
+		tail = tailLine + strings.Repeat("y", 90) + "</pad>"
+		extra = append(extra, options.WithPromptSearchDepth(48))
+	}
+
 	sess, err := newNcSession(ncConfig{
-		adv10: true, adv11: true, preferred: s.Version, echo: s.Echo, seg: sg.seg, seed: int64(s.ID), timeout: 1500 * time.Millisecond,
+		adv10: true, adv11: true, preferred: s.Version, echo: s.Echo, seg: sg.seg, seed: int64(s.ID), timeout: 1500 * time.Millisecond, extra: extra,
 		reply: func(_ *simdev.NCServer, r simdev.NCRequest) []byte {
 			pay, ends := concPayloadU(s.Payload, r.MsgID, s.ID)
 			if s.Version == "1.0" {
@@ -291,6 +307,11 @@ func c02DrvOne(s *c02Drv, segIdx int) verdict {
 				}
 			}
 
+			if tail != "" {
+				pay += tail
+				sizes = append(sizes, len(tail))
+			}
+
 			reply = simdev.Frame11([]byte(pay), sizes)
 
 			return reply
@@ -312,6 +333,11 @@ func c02DrvOne(s *c02Drv, segIdx int) verdict {
 
 	fin, pan := withWatchdog(20*time.Second, func() { r, err = sess.d.Get("") })
 	want, _ := concPayloadU(s.Result, 101, s.ID)
+	if tail != "" {
+		// the result is the payload without surrounding white space; what was trailing before is now in the middle
+		full, _ := concPayloadU(s.Payload, 101, s.ID)
+		want += full[len(strings.TrimRight(full, " \t\r\n")):] + tail
+	}
 
 	// the input class of the known finding: on the wire, a line starts with "##" before the end-of-chunks marker - a data
 	// line of the payload, or a chunk whose data starts with "##" (chunk data always follows the LF of its header)
